@@ -64,6 +64,11 @@ def gen_structs(rng, n):
             fields = [("struct", inner)] + [extra() for _ in range(1 if k < 2 else 2)]
             rng.shuffle(fields)
             structs.append(fields)
+        # a slice (two wasm scalars: pointer and length) next to one small scalar, in both orders, and the pair wrapped alone
+        sl = ("slice", rng.choice(["u8", "u16", "f64", "str8", "str16", "i32"]))
+        structs.append([("prim", rng.choice(small)), sl])
+        structs.append([sl, ("prim", rng.choice(small))])
+        structs.append([("struct", len(structs) - rng.choice([1, 2]))])
     for k in range(len(structs), n):
         nf = rng.randint(1, 8) if k % 3 else rng.randint(1, 4)
         fields = [gen_field(rng, structs, 0) for _ in range(nf)]
